@@ -509,6 +509,22 @@ theorem haversine_nonneg' (hR : 0 ≤ F.R) (hsqrt : ∀ x, 0 ≤ F.sqrt x)
 theorem haversine_sqrt_arg_nonneg' (hmin : ∀ a b, F.min a b ≤ b) (p q : Pt α) :
     0 ≤ 1 - F.min (havA F p q) 1 := sub_nonneg.mpr (hmin _ _)
 
+/-- the haversine `a` term is non-negative when both cosines are (latitudes within ±90°) -/
+theorem havA_nonneg (p q : Pt α) (hp : 0 ≤ F.cos (deg2rad F p.y)) (hq : 0 ≤ F.cos (deg2rad F q.y)) :
+    0 ≤ havA F p q := by
+  unfold havA
+  have h1 := mul_self_nonneg (F.sin (deg2rad F (p.y - q.y) / 2))
+  have h2 := mul_self_nonneg (F.sin (deg2rad F (p.x - q.x) / 2))
+  have h3 := mul_nonneg (mul_nonneg hq hp) h2
+  simp only
+  nlinarith [h1, h3]
+
+theorem haversine_sqrt_args_nonneg' (hmin : ∀ a b, F.min a b ≤ b)
+    (hmin0 : ∀ a b, 0 ≤ a → 0 ≤ b → 0 ≤ F.min a b) (p q : Pt α)
+    (hp : 0 ≤ F.cos (deg2rad F p.y)) (hq : 0 ≤ F.cos (deg2rad F q.y)) :
+    0 ≤ F.min (havA F p q) 1 ∧ 0 ≤ 1 - F.min (havA F p q) 1 :=
+  ⟨hmin0 _ _ (havA_nonneg F p q hp hq) zero_le_one, sub_nonneg.mpr (hmin _ _)⟩
+
 theorem distance_fold_le_pi' (x : α) (h2 : F.abs x ≤ 2 * F.pi) (hpi : 0 ≤ F.pi) :
     (if F.pi < F.abs x then 2 * F.pi - F.abs x else F.abs x) ≤ F.pi ∧
     (0 ≤ F.abs x → 0 ≤ (if F.pi < F.abs x then 2 * F.pi - F.abs x else F.abs x)) := by
@@ -521,6 +537,36 @@ theorem distance_fold_le_pi' (x : α) (h2 : F.abs x ≤ 2 * F.pi) (hpi : 0 ≤ F
     split_ifs with h
     · linarith
     · exact h0
+
+/-- The antimeridian fold of `geo.Distance`: the absolute longitude difference in radians,
+    replaced by `2π − ·` when it exceeds `π` (distance.go:14-17). -/
+def lonFold (F : Fn α) (p1 p2 : Pt α) : α :=
+  let dLon := F.abs (deg2rad F (p1.x - p2.x))
+  if F.pi < dLon then 2 * F.pi - dLon else dLon
+
+/-- `geo.Distance` IS `√(Δφ² + (fold·cos φ_m)²)·R` with `fold = lonFold` (definitional). -/
+theorem distance_eq_lonFold' (p q : Pt α) :
+    distance F p q =
+      F.sqrt (deg2rad F (p.y - q.y) * deg2rad F (p.y - q.y) +
+        (lonFold F p q * F.cos (deg2rad F ((p.y + q.y) / 2))) *
+        (lonFold F p q * F.cos (deg2rad F ((p.y + q.y) / 2)))) * F.R := rfl
+
+/-- For longitudes within ±180° the folded difference used by `distance` lies in `[0, π]`. -/
+theorem lonFold_range' (habs0 : ∀ x, 0 ≤ F.abs x) (habs : ∀ x, F.abs x = x ∨ F.abs x = -x)
+    (hpi : 0 ≤ F.pi) (p q : Pt α) (hp1 : -180 ≤ p.x) (hp2 : p.x ≤ 180) (hq1 : -180 ≤ q.x) (hq2 : q.x ≤ 180) :
+    0 ≤ lonFold F p q ∧ lonFold F p q ≤ F.pi := by
+  have hx1 : deg2rad F (p.x - q.x) ≤ 2 * F.pi := by
+    unfold deg2rad
+    rw [div_le_iff₀ (by norm_num : (0 : α) < 180)]
+    nlinarith
+  have hx2 : -(2 * F.pi) ≤ deg2rad F (p.x - q.x) := by
+    unfold deg2rad
+    rw [le_div_iff₀ (by norm_num : (0 : α) < 180)]
+    nlinarith
+  have h2 : F.abs (deg2rad F (p.x - q.x)) ≤ 2 * F.pi := by
+    rcases habs (deg2rad F (p.x - q.x)) with h | h <;> rw [h] <;> linarith
+  have h := distance_fold_le_pi' F (deg2rad F (p.x - q.x)) h2 hpi
+  exact ⟨h.2 (habs0 _), h.1⟩
 
 end distance
 
@@ -545,5 +591,23 @@ theorem exampleFn_laws : (∀ x, exampleFn.sin (-x) = -exampleFn.sin x) ∧ (∀
   intro x
   simp only [exampleFn]
   split_ifs <;> linarith
+
+/-- The remaining laws used as hypotheses: `min a b ≤ b`, `min` of non-negatives is non-negative,
+    `abs ≥ 0`, `abs x ∈ {x, −x}`, `π ≥ 0`, `cos ≥ 0`. -/
+theorem exampleFn_laws2 : (∀ a b : Rat, exampleFn.min a b ≤ b) ∧
+    (∀ a b : Rat, 0 ≤ a → 0 ≤ b → 0 ≤ exampleFn.min a b) ∧
+    (∀ x : Rat, 0 ≤ exampleFn.abs x) ∧ (∀ x : Rat, exampleFn.abs x = x ∨ exampleFn.abs x = -x) ∧
+    (0 : Rat) ≤ exampleFn.pi ∧ (∀ x : Rat, 0 ≤ exampleFn.cos x) := by
+  refine ⟨?_, ?_, ?_, ?_, by decide +kernel, fun _ => by show (0 : Rat) ≤ 1; decide +kernel⟩
+  · intro a b; simp only [exampleFn]; split_ifs with h
+    · exact le_of_lt h
+    · exact le_refl _
+  · intro a b ha hb; simp only [exampleFn]; split_ifs <;> assumption
+  · intro x; simp only [exampleFn]; split_ifs with h
+    · linarith
+    · exact not_lt.mp h
+  · intro x; simp only [exampleFn]; split_ifs
+    · exact Or.inr rfl
+    · exact Or.inl rfl
 
 end Orb.Geo
